@@ -143,6 +143,7 @@ def execute(spec):
     qs = spec["quantiles"]
     sched = Scheduler(0, script=[float(q) for q in qs], budget=10 * len(qs) + 100)
     world = World(sched)
+    world.draw_limit = 10 ** 9
     stats = {"runs": 1, "family:" + fam: 1, "draws": 0, "draws_compared": 0}
     values = []
     with world:
